@@ -71,6 +71,9 @@ def gen_case(rng, idx, heavy):
                 lines.append('roundtrip-narrow vs %02x%02x' % (n >> 8, n & 255))
             if rng.chance(1, 3):
                 lines.append('roundtrip-status %d %s' % (rng.below(5), hx(''.join(rng.choice('ab é/') for _ in range(rng.below(40))).encode())))
+            if rng.chance(1, 5):
+                # state that must not survive a serialisation: messages with shared pointers, many in a row on one thread
+                lines.append('roundtrip-shared %d %d %d' % (rng.below(1 << 40), rng.choice([2, 5, 20, 60]), 1 if rng.chance(1, 4) else 0))
             if rng.chance(1, 2):
                 # the archive of Status, byte for byte against the model (inline up to 7 bytes, padding 0-3, long messages)
                 n = rng.choice([0, 1, 6, 7, 8, 9, 10, 11, 12, 13, rng.below(40), rng.below(300), rng.choice([4093, 65535, 65536, 70001])])
@@ -160,7 +163,7 @@ def canon(line, out):
         if len(t) >= 2 and t[1] in ('err:2', 'err:3'): t[1] = 'refused'      # an invalid payload, or the transport gave the stream up
         return ' '.join(t)
     # value-level and end-to-end lines have no byte-level model counterpart
-    return 'x' if line.split()[0] in ('roundtrip', 'roundtrip-narrow', 'roundtrip-status', 'echo', 'echo-burst') else out
+    return 'x' if line.split()[0] in ('roundtrip', 'roundtrip-narrow', 'roundtrip-status', 'roundtrip-shared', 'echo', 'echo-burst') else out
 
 
 def kv(out):
@@ -208,6 +211,8 @@ def oracle(case, impl):
         elif t[0] == 'wide':
             if out != 'wide seen=%s %s' % (t[1], t[2]):
                 bad.append('wide-fields: the handler observed `%s` for a message with usize/isize fields %s %s' % (out, t[1], t[2]))
+        elif t[0] == 'roundtrip-shared':
+            if out != 'shared ok=%s bad=0' % t[2]: bad.append('%s: a message with shared pointers did not come back as it was sent: %s' % (line, out))
         elif t[0] == 'fail':
             exp = 'fail %d %s' % (int(t[1]) % 5, t[2])
             if out != exp: bad.append('%s: client saw `%s`, handler returned `%s`' % (line, out, exp))
